@@ -184,6 +184,8 @@ def gen_graph(rng, stream):
         add_top_unsetup_lines(rng, g)
     if rng.random() < 0.12:
         add_tag_named_version(rng, g)
+    if stream == "cf" and rng.random() < 0.25:
+        add_pre_history(rng, g)
     return g
 
 
@@ -254,6 +256,69 @@ def add_tag_named_version(rng, g):
     if cf or m in g["tags"]:
         g["tags"][m] = other if (tname == "current" or rng.random() < 0.5 or g["tags"].get(m) == old) else g["tags"][m]
     g["tag_named"] = {"product": m, "name": tname, "tagged": other}
+
+
+def add_pre_history(rng, g):
+    """Process history `listing(s) first, redeclare, then build + expand` (one long-lived process).  Grafted onto the graph: a
+    product k whose table the listing walks (reached from the top product through lines without -j) gets a bare required line
+    for a new product m; m 1 (the build version) needs the new leaf h, the older m 0 does not.  Before the listings only m 0 is
+    declared (and current); then m 1 is declared and made current.  m is NESTED (not named by the top table itself: the expander
+    reads the tables of the top table's own products directly; the version pins of a listing only decide which table is read
+    for the products below them), h is brought in by nothing else."""
+    if g["stream"] != "cf" or g.get("tag_named") or any(l["k"] == "unsetup" for _, _, ls in g["decl"] for l in ls):
+        return
+    topn, topv = g["top"]
+    build = g["build"]
+    tables = {(a, b): l for a, b, l in g["decl"]}
+    walked = []
+
+    def walk(n, v):
+        for l in tables.get((n, v), []):
+            fl = l.get("flags") or []
+            if l["k"] == "setup" and not fl and l["name"] in build and l["name"] not in walked:
+                walked.append(l["name"])
+                walk(l["name"], build[l["name"]])
+    walk(topn, topv)
+    if not walked:
+        return
+    k = rng.choice(walked)
+    plain = {"k": "cmd", "text": CMDS[0]}
+    klines = tables[(k, build[k])]
+    klines.insert(rng.randint(0, len(klines)), {"k": "setup", "optional": False, "name": "m", "spec": None, "flags": [], "deco": {}})
+    g["decl"] += [["m", "1", [dict(plain), {"k": "setup", "optional": False, "name": "h", "spec": None, "flags": [], "deco": {}}]],
+                  ["m", "0", [dict(plain)]], ["h", "1", [dict(plain)]]]
+    g["names"] = g["names"] + ["m", "h"]
+    build.update({"m": "1", "h": "1"})
+    g["tags"].update({"m": "1", "h": "1"})
+    g["pre_history"] = {"product": "m", "version": "1", "old": "0", "extra": "h", "via": k,
+                        "list": rng.sample(["api_topological", "api_cycles", "cli_list"], rng.randint(1, 3))}
+
+
+def hide_redeclared(stack, userdata, case):
+    """the database as it was before the redeclaration: the build version of the product is not declared, current is the old one"""
+    ph = case["pre_history"]
+    f = os.path.join(stack, "ups_db", ph["product"], ph["version"] + ".version")
+    if os.path.exists(f):
+        os.unlink(f)
+    write_current(stack, ph["product"], ph["old"])
+    drop_caches(userdata)
+
+
+def redeclare(stack, userdata, case):
+    ph = case["pre_history"]
+    lines = [l for n, v, l in case["decl"] if n == ph["product"] and v == ph["version"]][0]
+    write_product(stack, ph["product"], ph["version"], table_text(lines))
+    write_current(stack, ph["product"], ph["version"])
+    drop_caches(userdata)
+
+
+def final_current(case, name):
+    """the version the current tag of `name` names after the evolution"""
+    v = case["tags"].get(name)
+    for op in case.get("evolve") or []:
+        if op[0] == "current" and op[1] == name:
+            v = op[2]
+    return v
 
 
 def level0(lines, lo=0):
@@ -496,11 +561,14 @@ def gen_case(rng, stream=None):
     # undeclare one dependency between the build and the expansion: findSetupProduct then finds nothing while
     # getSetupVersion still reports the version (the model's spv / sv); outside the property's premise -> oracle (i) + never_foreign only
     case["tamper"] = [rng.choice(g["names"][1:])] if rng.random() < 0.07 else []
+    if g.get("pre_history"):
+        case["tamper"] = []         # (the expansion of a history case runs inside the history process, before any tampering)
     if case["tamper"] and (g.get("tag_named") or {}).get("product") == case["tamper"][0]:
         # a set-up version named like a tag AND undeclared before the expansion: findSetupVersion then (by design: old records
         # held tag names) takes the recorded name for the tag and reports the tagged version -- outside every premise (O6)
         case["tamper"] = []
     case["cli_check"] = rng.random() < 0.3           # also run `eups expandtable` itself and compare with the API call
+    case["replay_mode"] = rng.choice(["object", "api_noversion", "api_noversion", "api_version", "cli_exact"])   # entry point of the exact replay
     case["cli_mode"] = rng.choice(["stdout", "stdout", "inplace", "outdir", "stdin", "warn"])   # where the command reads / writes
     case["expanded_deps"] = []
     if stream == "cf" and rng.random() < 0.4 and not has_unsetup(case):       # installed products usually carry expanded tables
